@@ -40,7 +40,8 @@ CHECKS = {
             "Trusted: TLC, the harness's primitive codecs and generic layout interpreter, python3 bz2. Values are sampled (structure is exhaustive)."),
     "C03": ("model_checking",
             "TLA+ layout specification (ProtoLayout.tla: Java JSON members, Bedrock pong, legacy kick packets) enumerated by TLC and replayed "
-            "into the real query functions; auto-detect order: Minecraft.tla model-checked and replayed",
+            "into the real query functions; auto-detect order: Minecraft.tla model-checked and replayed; McText.tla: the Bedrock status "
+            "tail and the legacy kick string as pure functions, every short string replayed",
             "TLC enumerates every shape of the Java status JSON (optional members present/absent, sample list shapes, description as string or "
             "object), the Bedrock pong (6-12 fields) and the three legacy kick formats; each is concretised with random values (arbitrary Unicode "
             "strings, full u32/i32 ranges), served through the scripted transport and the decoded status compared member by member (description "
@@ -48,12 +49,14 @@ CHECKS = {
             "Trusted: TLC, harness primitive codecs (VarInt, UTF-16BE), serde_json for building the status document."),
     "C04": ("model_checking",
             "TLA+ layout specification (ProtoLayout.tla: GameSpy 1 parts, GameSpy 2 tables, GameSpy 3 packets/sections) enumerated by TLC and "
-            "replayed into gamespy::{one,two,three}::{query,query_vars}",
+            "replayed into gamespy::{one,two,three}::{query,query_vars}; QuakeText.tla (kind gs1): the backslash variables grammar, every "
+            "short fragment replayed",
             "TLC enumerates players x teams x extra variables x optional per-player fields x part/packet counts x reported-vs-listed count; every "
             "shape is concretised with random values and the full response (every player, every team, exactly the unused variables) compared.",
             "Trusted: TLC, harness generic layout interpreter."),
     "C05": ("model_checking",
-            "TLA+ layout specification (ProtoLayout.tla: Quake 1/2/3 status reply) enumerated by TLC and replayed into quake::{one,two,three}::query",
+            "TLA+ layout specification (ProtoLayout.tla: Quake 1/2/3 status reply) enumerated by TLC and replayed into quake::{one,two,three}::query; "
+            "QuakeText.tla: the variables line and the player line as pure functions, every short line (exhaustive) replayed",
             "TLC enumerates version x key spellings x version key x extra variables x 0..n player lines x address column x names with spaces; "
             "each concretised with random values; variables, every player line and the unused entries are compared.",
             "Trusted: TLC, harness generic layout interpreter."),
@@ -134,7 +137,7 @@ CHECKS = {
             "A silent server with a huge retry count is legitimately retried for ever and is not run."),
     "C17": ("model_checking",
             "TLA+ reference model (Buffer.tla, VarInt.tla) checked with TLC; TLC-generated transitions replayed into the real code; "
-            "recorded traces validated by TLC (Trace_Buffer.tla)",
+            "recorded traces validated by TLC (Trace_Buffer.tla); the Unreal 2 string decoder as a reader operation (u2str) in its own universe",
             "Buffer.tla / VarInt.tla are model-checked exhaustively over all packets up to 4 (quick) / 6 (thorough) bytes of a 6-symbol boundary "
             "alphabet x every reader operation from every reachable cursor; every TLC transition is replayed on the real Buffer and codecs, random "
             "longer packets and operation sequences are recorded from the real reader and validated by TLC against Trace_Buffer.tla, and the VarInt "
